@@ -26,3 +26,6 @@ import MidoProofs.SrcTie.Tracks
 #print axioms Mido.src_track_loop
 #print axioms Mido.src_read_chunk_header
 #print axioms Mido.src_read_track
+#print axioms Mido.src_read_file_header
+#print axioms Mido.src_load_loop
+#print axioms Mido.src_load
